@@ -558,6 +558,22 @@ pub fn c05(ctx: &Ctx, rep: &mut Report) {
             }
         }
     }
+    // integer boundary values under both spellings of every integer built-in (wrap-around, MIN / -1,
+    // zero divisors, comparisons whose difference overflows)
+    for a in super::lang::BOUNDARY.iter() {
+        for b in super::lang::BOUNDARY.iter() {
+            for n in names[..24].iter().filter(|n| !["&", "|"].contains(*n)) {
+                k += 1;
+                if !ctx.mine(k) {
+                    continue;
+                }
+                let prog = table_program(RecvK::Int(*a), n, &[ArgK::Int(*b)]);
+                let replay = json!({"check":"C05","prog_b64": b64(&bcfmt::write(&prog)), "cell": format!("{}.{}({})", a, n, b)});
+                c05_file(rep, &format!("int-table:{}.{}({})", a, n, b), &prog, 1000, replay, None);
+                rep.bump("c05-table", "integer boundary cells");
+            }
+        }
+    }
     if ctx.shard == 0 {
         for (name, prog, expect, ok) in special_programs() {
             let replay = json!({"check":"C05","prog_b64": b64(&bcfmt::write(&prog)), "special": name});
